@@ -90,6 +90,16 @@ func c14gen(tier string) []Spec {
 			}
 		}
 	}
+	// the same two-thread scenarios with a scheduling point after every unlock (a critical
+	// section shortened so that a read follows the unlock shows only there)
+	n2 := len(specs)
+	for i := 0; i < n2; i++ {
+		if specs[i].Kind == "conc" {
+			sp := specs[i]
+			sp.PostRel = true
+			specs = append(specs, sp)
+		}
+	}
 	// three threads, and two ops in one thread
 	var sub []cop
 	if tier == "thorough" {
@@ -613,6 +623,7 @@ func c14concScenario(sp Spec) *vsched.Scenario {
 				for _, j := range jobs[ti] {
 					e := concEvent{thread: ti, op: j.op}
 					e.res.ID = -1
+					var refill bgzf.Block
 					hmu.Lock()
 					clock++
 					e.call = clock
@@ -626,6 +637,7 @@ func c14concScenario(sp Spec) *vsched.Scenario {
 						e.res.ID = idOf(b)
 						if b != nil {
 							e.res.GotBase = b.Base() / blockSpan
+							refill = b
 						}
 					case "Peek":
 						ex, next := c.Peek(j.op.Base * blockSpan)
@@ -642,6 +654,13 @@ func c14concScenario(sp Spec) *vsched.Scenario {
 					e.retn = clock
 					events = append(events, e)
 					hmu.Unlock()
+					if refill != nil && !strings.Contains(pr.Kind, "FIFO") {
+						// the caller owns a block it got ("the returned Block must be removed
+						// from the Cache") and, like the Reader, overwrites it with another
+						// member; nothing the cache reports afterwards may reflect that. (Not
+						// done for FIFO, whose Get leaves used blocks indexed: open finding.)
+						bgzf.VerifRebase(refill, 7*blockSpan, blockSpan, []byte("refilled"), true)
+					}
 				}
 				done.Send(ti)
 			})
